@@ -8,7 +8,7 @@ import numpy as np
 
 from ref import extref, fitref, pkgwriter
 
-BAND_WAV = {'B1': 1.0, 'B2': 2.2, 'B3': 4.5, 'B4': 8.0, 'B5': 24.0, 'B6': 0.8}
+BAND_WAV = {'B1': 1.0, 'B2': 2.2, 'B3': 4.5, 'B4': 8.0, 'B5': 24.0, 'B6': 0.8, 'N1': 0.6563, 'N2': 0.6583}
 ALL_BANDS = ['B1', 'B2', 'B3', 'B4', 'B5']
 FLAGS = (0, 1, 2, 3, 4, 9)
 
@@ -139,18 +139,29 @@ def build_package(d, name, spec):
 
 
 def make_fitter(md, bands, law, av_range, distance_range_kpc=(1.0, 2.0), theta=None, memmap=True,
-                remove_resolved=False, by_wavelength=False, dunit='kpc', tunit='arcsec', as_tuple=False):
+                remove_resolved=False, by_wavelength=False, dunit='kpc', tunit='arcsec', as_tuple=False, av_form='list'):
     from astropy import units as u
     from sedfitter.fit import Fitter
     theta = np.ones(len(bands)) if theta is None else np.asarray(theta, float)
     if by_wavelength:
-        filt = [BAND_WAV[b] * u.micron for b in bands]
+        # a wavelength is a length in any unit: micron for the first band, then mm, nm, micron, Angstrom, m in turn
+        wunits = [u.micron, u.mm, u.nm, u.micron, u.AA, u.m]
+        filt = [(BAND_WAV[b] * u.micron).to(wunits[i % len(wunits)]) for i, b in enumerate(bands)]
     else:
         filt = list(bands)
     if as_tuple:
         filt = tuple(filt)
+    avr = list(av_range)
+    if av_form == 'int' and all(float(x) == int(x) for x in avr):
+        avr = [int(x) for x in avr]
+    elif av_form == 'tuple':
+        avr = tuple(avr)
+    elif av_form == 'array':
+        avr = np.array(avr)
+    elif av_form == 'intarray' and all(float(x) == int(x) for x in avr):
+        avr = np.array([int(x) for x in avr])
     return Fitter(filt, (theta * u.arcsec).to(u.Unit(tunit)), md, extinction_law=law_object(law) if isinstance(law, str) else law,
-                  av_range=list(av_range), distance_range=(np.array(distance_range_kpc, float) * u.kpc).to(u.Unit(dunit)),
+                  av_range=avr, distance_range=(np.array(distance_range_kpc, float) * u.kpc).to(u.Unit(dunit)),
                   remove_resolved=remove_resolved, use_memmap=memmap)
 
 
